@@ -267,3 +267,4 @@ MANIFEST = {
             'against CBC in the thorough tier).',
 }
 MANIFEST['text'] += (' ' + "6% of the cases are large or 'deep' instances (cost values above 10^4) on real CBC, checked with the prefix-consistency relation: the value an earlier criterion reaches in the full run equals the value it reaches when the run stops after it. Cases may carry decoy objects or earlier solves.")
+MANIFEST['text'] += (' ' + 'Conflicting pairs include criteria that measure nearly the same quantity (lsb/lmb/mincostlsb, mincost/minsqcost), on instances whose lecturer targets cannot all be met.')
